@@ -247,8 +247,6 @@ def gen(r, tier):
                     continue
                 for m in range(0, k + 1):
                     for subset in itertools.combinations(range(k), m):
-                        if tier == "quick" and k == 5 and r.random() < 0.5:
-                            continue
                         cases.append(gen_loss(r, f, n, subset))
     # all arrival orders for <= 4 fragments
     for k in range(2, 5):
@@ -521,19 +519,25 @@ def distribution(cases, outs):
 
 
 MANIFEST = {
-    "text": ("Machine-checked proof (Coq) over a model of as_data_frag_submessage, the writer's fragment emission and "
-             "NACK_FRAG/ACKNACK answers, RtpsWriterProxy (push, total_fragments_expected, reconstruct, NACK_FRAG "
-             "generation) and RtpsStatefulReader::on_data_frag_submessage: for every payload and every fragment size "
-             "1..65535 the fragments concatenate to the payload, the expected count is ceil(len/f), and for every "
-             "history of writes, deliveries in any order with duplicates/loss/interleaving, heartbeats and "
-             "ACKNACK/NACK_FRAG rounds the reader only ever holds byte-identical payloads (single reader id); "
-             "the repair claims are proved FALSE on the model and confirmed on the real code (known findings). "
-             "The model is tied to the code by running the real writer/reader objects on generated scenarios and "
-             "comparing every observation with the model inside Coq; the oracle judges the implementation's trace."),
-    "note": ("Trusted: Coq kernel + vm_compute; hand model FragModel.v (checked against the code by the correspondence "
-             "run on every check); harness (plays the network and transcribes the heartbeat handling of "
-             "communication_methods.rs). Axioms: none. Known findings: NACK_FRAG count never incremented, 1-based/"
-             "0-based fragment index, fragment_size 0 division, NACK_FRAG bitmap overflow beyond 256 fragments, "
-             "truncated delivery when fragments addressed to two readers are mixed."),
+    "text": ("Machine-checked proof (Coq) over a model of as_data_frag_submessage, the writer's fragment emission and its "
+             "NACK_FRAG / ACKNACK answers, RtpsWriterProxy (push_data_frag, total_fragments_expected, "
+             "reconstruct_data_from_frag, NACK_FRAG generation) and RtpsStatefulReader::on_data(_frag)_submessage. "
+             "Proved for every payload and every fragment size 1..65535: the fragments concatenate to the payload, are "
+             "numbered 1..ceil(len/f), the reader's expected count is that ceiling; reconstruct returns exactly the "
+             "payload from ANY list that contains every fragment (any order, duplicates, other samples interleaved) and "
+             "nothing from an incomplete one; for EVERY history of writes, deliveries, losses, heartbeats, ACKNACK / "
+             "NACK_FRAG rounds the reader only ever holds byte-identical payloads, once, in order; a reliable reader "
+             "that received every fragment holds the sample; no panic outside two known classes. The repair half of "
+             "the property is FALSE on the code and is proved false on the model for all histories (the reader's "
+             "NACK_FRAG count is always 0 and is always filtered; a lost fragment is never resent; an accepted NACK_FRAG "
+             "is answered with fragment n+1), each confirmed on the real code (5 known findings). The model is tied to "
+             "the code by driving the real RtpsStatefulWriter / RtpsStatefulReader on generated scenarios and comparing "
+             "every observation with the model inside Coq; the property oracle judges the implementation's own trace."),
+    "note": ("Trusted: Coq kernel + vm_compute; hand model FragModel.v (checked against the code on every run); the harness "
+             "(plays the network, transcribes the heartbeat handling of communication_methods.rs); payloads above 1 kB "
+             "are compared by length + 63-bit FNV-1a digest computed on both sides (primitive Uint63 in FragCorr.v only). "
+             "Axioms: none. Not covered: inline QoS / key-only fragments, non-ALIVE changes, fragment sizes above 65535, "
+             "the datagram codec itself (C07). Known findings: C05-nackfrag-count-zero, C05-nackfrag-off-by-one, "
+             "C05-fragsize-zero-div, C05-nackfrag-bitmap-overflow, C05-mixed-readerid-truncation."),
     "technique": "Coq proof (list induction, invariants over all histories) + differential correspondence with oracle evaluated in Coq",
 }
